@@ -480,13 +480,14 @@ class Stubs:
             S._c12_real_fallbacks = self.old
         old_egg = S._c12_real_fallbacks[0]
 
-        def egg(name, extractor, setup_file):
+        def egg(*args, **kwargs):     # whatever arguments the code gives its fall-back; only setup_file is looked at
+            setup_file = common.arg_of(old_egg, args, kwargs, "setup_file", pos=2)
             self.events.append("egg_info" if setup_file is not None else "egg_info:none")
             if self.real:
-                return old_egg(name, extractor, setup_file)
+                return old_egg(*args, **kwargs)
             return None
 
-        def wheel(name, source_file):
+        def wheel(*args, **kwargs):
             self.events.append("wheel")
             return None
         S._build_egg_info = egg
@@ -505,6 +506,7 @@ def observe_extract(enc440, MM, MetadataError, path: str, semantic: bool = False
     except MetadataError:
         return ("MetadataError",)
     except Exception as ex:           # anything else escaping is not "a metadata failure for that project"
+        common.reraise_harness_fault(ex)     # ... nor is an error of the harness's own stubs / probe one of the code
         return ("EXC", type(ex).__name__)
     ver = enc440.ver_token(r.version) if r.version is not None else None
     if semantic or type(r).__name__ != "DistInfo":
@@ -745,9 +747,9 @@ def install_probe(S) -> Tuple[Probe, Any]:
     sys.modules["c12probe"] = probe
     old = S._parse_setup_py
 
-    def wrapped(name, setup_file, extractor, *args, **kwargs):
-        probe.extractor = extractor
-        return old(name, setup_file, extractor, *args, **kwargs)
+    def wrapped(*args, **kwargs):     # forwards the call as the code spelled it
+        probe.extractor = common.arg_of(old, args, kwargs, "extractor", pos=2)
+        return old(*args, **kwargs)
     S._parse_setup_py = wrapped
     return probe, old
 
@@ -1017,7 +1019,9 @@ def gen_program(rng, i: int) -> Dict[str, Any]:
     if r < 0.14:
         # a purely declarative project: setup.cfg only, with UTF-8 free text
         prog["cfg_only"] = True
-        d["extras"] = [[k, v] for k, v in d["extras"] if ":" not in k and '"' not in k]
+        # (an option name is written at the start of its line: a padded key would be a continuation line of the
+        # previous option in setup.cfg, i.e. another declaration than the one recorded here)
+        d["extras"] = [[k.strip(), v] for k, v in d["extras"] if ":" not in k and '"' not in k and k.strip()]
         prog["text"] = rng.choice([t for t in FREE_TEXT if t])
         return prog
     if r < 0.3:
